@@ -187,6 +187,48 @@ let () =
                 | "txtx" -> both parse_txt_reply_ext (spec_txt true) r_txtx
                 | _ -> diff "unknown parser line %s" l)
            end
+           else if starts l "F " then begin
+             (* allocation-failure sweep: the ledger model with the same allocator answers *)
+             let toks = split_on ' ' l in
+             let name = List.nth toks 1 in
+             let v = int_of_string (kv toks "v") and at = int_of_string (kv toks "at") and tot = int_of_string (kv toks "tot") in
+             let st_i = int_of_string (kv toks "st") and out_i = int_of_string (kv toks "out") and live = int_of_string (kv toks "live") in
+             bump ("F" ^ name);
+             if live <> 0 then fail (name ^ "-leak") "allocation %d of %d failing: %d blocks live after the call and the matching free function: %s" at tot live l;
+             if st_i <> 0 && out_i <> 0 then fail (name ^ "-records") "result handed out with status %d: %s" st_i l;
+             if at > 0 && st_i = 0 then fail (name ^ "-enomem-ignored") "allocation %d of %d failed but the call reports success: %s" at tot l;
+             let failfn n = at > 0 && int_of_nat n = at - 1 in
+             let mem0 = { m_count = O; m_live = [] } in
+             let chk_list r =
+               match r with
+               | Ok ((s, out), m') ->
+                 (match free_data out m' with
+                  | Ok m'' -> (int_of_z s, (if out = [] then 0 else 1), int_of_nat m'.m_count, m''.m_live = [])
+                  | _ -> (int_of_z s, -1, 0, false))
+               | _ -> (-1, -1, 0, false) in
+             let chk_host r =
+               match r with
+               | Ok ((s, h), m') ->
+                 (match free_hostent h m' with
+                  | Ok m'' -> (int_of_z s, (if h = None then 0 else 1), int_of_nat m'.m_count, m''.m_live = [])
+                  | _ -> (int_of_z s, -1, 0, false))
+               | _ -> (-1, -1, 0, false) in
+             let lp items = chk_list (list_parser_mem failfn items false p mem0) in
+             let (ms, mo, mc, mempty) = match name with
+               | "mx" -> lp mx_items | "srv" -> lp srv_items | "naptr" -> lp naptr_items | "caa" -> lp caa_items
+               | "uri" -> lp uri_items | "txt" | "txtx" -> lp txt_items
+               | "soa" -> (match soa_mem failfn false p mem0 with
+                   | Ok ((s, o), m') -> chk_list (Ok ((s, (match o with Some n -> [n] | None -> [])), m'))
+                   | _ -> (-1, -1, 0, false))
+               | "ns" -> chk_host (ns_mem failfn false p mem0)
+               | "ptr" -> chk_host (ptr_mem failfn false p (v = 1) mem0)
+               | "a" -> chk_host (addr_reply_mem failfn lEG_AF_INET false p (v = 0) mem0)
+               | "aaaa" -> chk_host (addr_reply_mem failfn lEG_AF_INET6 false p (v = 2) mem0)
+               | _ -> (-1, -1, 0, false) in
+             if not mempty then diff "ledger model: blocks left / invalid free for %s" l;
+             if ms <> st_i || mo <> out_i then diff "ledger model st=%d out=%d impl=[%s]" ms mo l;
+             if at = 0 && mc <> tot then diff "ledger model makes %d allocations, implementation %d: %s" mc tot l
+           end
            else if starts l "NEG " then begin
              let toks = List.tl (split_on ' ' l) in
              List.iter (fun t ->
